@@ -7,6 +7,7 @@ import random
 import time
 
 VERIF = "/verif"
+REPO = os.environ.get("VERIF_REPO", "/repo")  # the tree under verification (a scratch worktree when trying a seeded change)
 EVID = os.path.join(VERIF, "evidence")
 REPLAYS = os.path.join(EVID, "replays")
 
